@@ -7,6 +7,10 @@ LEVEL = "translation_validation"
 
 
 def run(chk, tier):
+    # where the header members live is decided by the validator's offset recurrence (validate_element_offset): its
+    # guards and state updates are rows of the confirmed table
+    import spec_layout
+    spec_layout.check_validator_recurrence(chk)
     e4.check(chk, ("fillers",), "thorough" if tier == "thorough" else "quick")
     ghaz.check_header_lookup_siblings(chk)
     n = chk.rule_counts.get("E4.filler", 0)
